@@ -330,6 +330,8 @@ pub struct PortState {
     pub fail_set_timeout: Option<(serial_core::ErrorKind, &'static str)>,
     /// how many more times each configuration fault fires (usize::MAX = persistent); 0 = spent
     pub fault_budget: usize,
+    /// an armed configuration fault PANICS (a driver with a bug of its own) instead of returning its error
+    pub panic_on_fault: bool,
     /// faults for the port's flush(): the k-th flush call returns this error kind
     pub flush_faults: Vec<(usize, io::ErrorKind)>,
     pub flush_calls: usize,
@@ -363,6 +365,9 @@ impl PortState {
             if self.fault_budget != usize::MAX {
                 self.fault_budget -= 1;
             }
+            if self.panic_on_fault {
+                panic!("the port's driver panicked");
+            }
         }
         f
     }
@@ -383,6 +388,7 @@ pub fn shared(settings: PortSettings) -> Shared {
         fail_baud: None,
         fail_write_settings: None,
         fail_set_timeout: None,
+        panic_on_fault: false,
         fault_budget: usize::MAX,
         flush_faults: vec![],
         flush_calls: 0,
